@@ -2,10 +2,12 @@
 //
 // Case lines:
 //
-//	cell <kind> <preload 0|1> <limit> <passes> <n> <consumers> <cancel>
+//	cell <kind> <preload 0|1> <limit> <passes> <n> <consumers> <cancel> [<eof layout 0..3>]
 //
 // kind: uri uripost raw jsonl jsona scenhttp scengrpc grpcjson decode; <cancel> is "-" or the
-// number of items after which the context is cancelled (always set when limit=passes=0).
+// number of items after which the context is cancelled (always set when limit=passes=0). <eof>: how
+// the ammo file ends (a08.EOFLayouts: final newline / none / trailing blanks+CR / blank lines); the
+// entries are the same in every layout, so the model does not look at it.
 // Observation: <count> <seq> <closed|blocked> <run class>   (see internal/a08).
 //
 // `run` drives the cells through worker subprocesses (one cell at a time each); a worker that
@@ -32,8 +34,12 @@ func runCell(c string) (out string) {
 	if len(f) == 7 && f[0] == "engine" {
 		return runEngineCell(f)
 	}
-	if len(f) != 8 || f[0] != "cell" {
+	if (len(f) != 8 && len(f) != 9) || f[0] != "cell" {
 		return "unknown-case"
+	}
+	eof := 0
+	if len(f) == 9 {
+		eof, _ = strconv.Atoi(f[8])
 	}
 	kind := f[1]
 	preload := f[2] == "1"
@@ -45,7 +51,7 @@ func runCell(c string) (out string) {
 	if f[7] != "-" {
 		cancel, _ = strconv.Atoi(f[7])
 	}
-	b, err := a08.Build(kind, preload, limit, passes, a08.DefaultEntries(n), nil)
+	b, err := a08.BuildEOF(kind, preload, limit, passes, a08.DefaultEntries(n), nil, eof)
 	if err != nil {
 		return "0 - blocked construct:" + strings.ReplaceAll(err.Error(), " ", "_")
 	}
@@ -99,7 +105,8 @@ func gen(r *vh.Rand, tier string) []string {
 	if tier == "thorough" {
 		ns = []int{1, 2, 3, 5}
 	}
-	// the enumerated matrix
+	// the enumerated matrix; the end-of-file layout rotates over the cells
+	cellNo := 0
 	for _, pc := range provCfgs() {
 		for _, limit := range []int{0, 1, 2, 3, 5} {
 			for _, passes := range []int{0, 1, 2, 3} {
@@ -109,8 +116,22 @@ func gen(r *vh.Rand, tier string) []string {
 						if limit == 0 && passes == 0 {
 							cancel = strconv.Itoa(2*n + 1)
 						}
-						out = append(out, fmt.Sprintf("cell %s %d %d %d %d %d %s", pc.kind, pc.preload, limit, passes, n, cons, cancel))
+						out = append(out, fmt.Sprintf("cell %s %d %d %d %d %d %s %d", pc.kind, pc.preload, limit, passes, n, cons, cancel, cellNo%a08.EOFLayouts))
+						cellNo++
 					}
+				}
+			}
+		}
+	}
+	// every end-of-file layout for every file-based provider: the end of the first pass must be crossed
+	for _, pc := range provCfgs() {
+		if pc.kind == "scenhttp" || pc.kind == "scengrpc" {
+			continue
+		}
+		for eof := 0; eof < a08.EOFLayouts; eof++ {
+			for _, lp := range [][2]int{{0, 2}, {5, 0}, {4, 3}} {
+				for _, n := range []int{1, 3} {
+					out = append(out, fmt.Sprintf("cell %s %d %d %d %d 1 - %d", pc.kind, pc.preload, lp[0], lp[1], n, eof))
 				}
 			}
 		}
@@ -138,7 +159,7 @@ func gen(r *vh.Rand, tier string) []string {
 		if (limit == 0 && passes == 0) || r.Chance(1, 3) {
 			cancel = strconv.Itoa(r.Range(0, 3*n+2))
 		}
-		out = append(out, fmt.Sprintf("cell %s %d %d %d %d %d %s", pc.kind, pc.preload, limit, passes, n, r.Range(1, 4), cancel))
+		out = append(out, fmt.Sprintf("cell %s %d %d %d %d %d %s %d", pc.kind, pc.preload, limit, passes, n, r.Range(1, 4), cancel, r.Intn(a08.EOFLayouts)))
 	}
 	return out
 }
